@@ -70,6 +70,12 @@ def generate(rng, n, k):
             d = DT.gen_treeinfo(rng, R)
             extra = rng.sample(["xen", "uefi", "bios", "pxe", "ppc64", "s390"], rng.randint(2, 5))    # several platforms besides the arch
             d["tree"]["platforms"] = sorted(set(d["tree"]["platforms"]) | set(extra))
+            if rng.random() < 0.5:
+                # two platforms whose names differ only by the architecture suffix, each with its own table
+                twin = "xen-%s" % d["tree"]["arch"]
+                d["tree"]["platforms"] = sorted(set(d["tree"]["platforms"]) | {"xen", twin})
+                d["images"]["xen"] = {"kernel": "images/xen/vmlinuz", "initrd": "images/xen/initrd.img"}
+                d["images"][twin] = {"kernel": "images/xen64/vmlinuz", "boot.iso": "images/xen64/boot.iso"}
             cases.append({"kind": kind, "desc": d, "orders": [shuffle_treeinfo(rng, d) for _ in range(k)]})
             continue
         if kind in ("rpms", "modules", "extra"):
